@@ -149,4 +149,33 @@ theorem tie_toxic_json :
 theorem tie_chanreader : seqOf "stream/io_chan.go:ChanWriter.Write" = ["call:time.Now", "send:c.output", "return"] ∧
     seqOf "stream/io_chan.go:ChanWriter.Close" = ["call:close", "return"] := by decide
 
+/-! ### Client library and CLI (model `Toxi.Client`) -/
+
+def callsOf (name : String) : List String := (clientCalls.lookup name).getD []
+
+/-- Verb and path of every client operation, the two toxicity guards (−1 = default on add,
+−1 = keep on update), the `created` switch of `Save`, the 2xx test of `validateResponse`. -/
+theorem tie_client :
+    callsOf "client/client.go:Client.get" = ["send:\"GET\""] ∧
+    callsOf "client/client.go:Client.post" = ["send:\"POST\""] ∧
+    callsOf "client/client.go:Client.patch" = ["send:\"PATCH\""] ∧
+    callsOf "client/client.go:Client.delete" = ["send:\"DELETE\""] ∧
+    callsOf "client/client.go:Client.validateResponse" = ["if:resp.StatusCode<300&&resp.StatusCode>=200"] ∧
+    callsOf "client/client.go:Client.Proxies" = ["get:\"/proxies\""] ∧
+    callsOf "client/client.go:Client.Proxy" = ["get:\"/proxies/\"+name"] ∧
+    callsOf "client/client.go:Client.ResetState" = ["post:\"/reset\""] ∧
+    callsOf "client/proxy.go:Proxy.Save" = ["if:proxy.created", "post:\"/proxies/\"+proxy.Name", "post:\"/proxies\""] ∧
+    callsOf "client/proxy.go:Proxy.Delete" = ["delete:\"/proxies/\"+proxy.Name"] ∧
+    callsOf "client/proxy.go:Proxy.Toxics" = ["get:\"/proxies/\"+proxy.Name+\"/toxics\""] ∧
+    callsOf "client/proxy.go:Proxy.AddToxic" = ["if:toxic.Toxicity==-1", "post:\"/proxies/\"+proxy.Name+\"/toxics\""] ∧
+    callsOf "client/proxy.go:Proxy.UpdateToxic" = ["if:toxicity!=-1", "patch:\"/proxies/\"+proxy.Name+\"/toxics/\"+name"] ∧
+    callsOf "client/proxy.go:Proxy.RemoveToxic" = ["delete:\"/proxies/\"+proxy.Name+\"/toxics/\"+name"] := by
+  decide
+
+/-- The CLI's toxicity defaults: `toxic add` passes 1.0, `toxic update` passes −1 (keep). -/
+theorem tie_cli :
+    callsOf "cmd/cli/cli.go:parseUpdateToxicParams" = ["parseToxicity:-1"] ∧
+    callsOf "cmd/cli/cli.go:parseAddToxicParams" = ["parseToxicity:1.0"] := by
+  decide
+
 end Toxi.Ties
